@@ -136,6 +136,15 @@ AddTopnode(T) ==
 
 -----------------------------------------------------------------------------
 (* punctuation re-attachment (C13) *)
+\* The inventories are data of the implementation and may grow, but the marks they are documented with
+\* (trees.py: quotes, the three bracket pairs and their PTB names, sentence and clause marks) must stay in
+\* them: a mark that drops out is silently no longer moved or deleted.
+DocQuotes   == {"\"", "'", "''", "`", "``"}
+DocBrackets == {"(", ")", "[", "]", "{", "}", "-LRB-", "-RRB-", "-LSB-", "-RSB-", "-LCB-", "-RCB-"}
+DocMarks    == {".", ",", ";", "?", "!", "--", ":", "-", "/", "..."}
+InventoryOK == /\ DocQuotes \cup DocBrackets \subseteq PAIRPUNCT
+               /\ DocQuotes \cup DocBrackets \cup DocMarks \subseteq PUNCT
+               /\ PAIRPUNCT \subseteq PUNCT
 IsPunct(x) == x.a.word \in PUNCT
 IsPair(x)  == x.a.word \in PAIRPUNCT
 PunctPos(T) == {p \in 1..T.n : IsPunct(Tok(T, p))}
